@@ -152,7 +152,7 @@ theorem tracked_until_reaped (s : PS) (op : Op) (id : Nat) (ht : id ∈ s.tracke
 
 theorem spawn_ok_tracked (s : PS) : s.nspawned ∈ (stepP s .spawnOk).tracked := by simp [stepP]
 
-/-- **spawn_failure_clean** (decision level, process.c:953-975 + 1053-1074): whatever errno the child
+/-- **spawn_failure_clean** (decision level, process.c:957-979 + 1057-1078): whatever errno the child
 reported (or EPIPE), `uv_spawn` returns that error, has reaped the child itself, and does not activate
 the handle; in the history model a failed spawn's id is never tracked and never gets an `exit_cb`. -/
 theorem spawn_failure_clean :
